@@ -21,7 +21,15 @@ RULE = ('A case is a JSON list of ops tagged mgr=own|vip|rule|ep|svc (first '
         'generation; ops are drawn in build/contend/kill/reap phases (one or '
         'two rounds, <=35 ops quick, <=51 thorough), one manager in focus '
         'or all mixed; after every op all four directories are compared '
-        'with dict models key->owner. Non-trivial = the case had (a) '
+        'with dict models key->owner. Schedules: a gcrace op runs one '
+        'garbage_collect of VipMgr / RuleMgr / endpoints with every '
+        'file-system call of the pass as a preemption point and, after the '
+        'k-th one, a burst of another process (container start: directory '
+        '+ its entries; container finish: releases + directory removed; or '
+        '1-3 arbitrary owner/create/release ops); entries that were free or '
+        'held by an existing owner in every state the pass could observe '
+        'must survive, entries of an owner gone in all of them must go. '
+        'Non-trivial = the case had (a) '
         'contention: a create/alloc refused because another owner holds the '
         'key or other owners exhaust the pool, or a release attempted by a '
         'non-owner on a held key, AND (b) a garbage collection (or service '
@@ -52,6 +60,11 @@ ASSUMPTIONS = [
     'symlinked parent; managers get the unresolved path; ownership is '
     'judged by the harness ledger (model + which owner dirs exist) and a '
     'link must name, by its physical location, the owner file of its owner',
+    'collection passes and container start / finish are separate processes '
+    'on a node; a pass is preempted at most once (gcrace; C14_RACE2=1 draws '
+    'a second preemption), only between two file-system calls it makes, '
+    'and the other process then runs a whole burst of manager calls (each '
+    'manager call is one symlink/readlink+unlink, not interleaved further)',
     'per-case directories live on /dev/shm when writable (else the default '
     'temp dir, VERIF_TMP overrides) and are removed when the case ends',
 ]
@@ -122,11 +135,49 @@ SIZES = {
 ERRNO = st.sampled_from(['EACCES', 'EIO', 'ESTALE'])
 
 
+# One preemption per collection pass by default.  C14_RACE2=1 also draws a
+# second burst a few calls after the first one: on the unchanged tree that
+# reaches the stat-then-unlink window of all three garbage collectors (an
+# entry released after the listing and granted to another live owner between
+# the pass's stat() and its unlink() is reclaimed), see notes/C14-notes.md.
+RACE2 = bool(os.environ.get('C14_RACE2'))
+
+
+def _race(mgr, point, burst, **fields):
+    if RACE2:
+        fields['more'] = st.lists(
+            st.fixed_dictionaries({'k': st.integers(1, 3), 'do': burst}),
+            max_size=1)
+    return _fixed(mgr, 'gcrace', k=point, do=burst, **fields)
+
+
+def _burst(up, down, make_new, others):
+    """What another process does between two system calls of a collection
+    pass: a container starts (its directory appears, then it takes its
+    entries), a container finishes (releases, then its directory goes), or
+    up to three arbitrary owner / create / release ops."""
+    start = st.tuples(up, st.lists(make_new, min_size=1, max_size=2)).map(
+        lambda pair: [pair[0]] + pair[1])
+    finish = st.tuples(st.lists(others, max_size=2), down).map(
+        lambda pair: pair[0] + [pair[1]])
+    free = st.lists(st.one_of(up, down, make_new, others, others),
+                    min_size=1, max_size=3)
+    return st.sampled_from([0, 0, 1, 2, 2]).flatmap(
+        lambda pos: (start, finish, free)[pos])
+
+
 def _op_strategies(nown, picked):
     slot = st.integers(0, nown - 1)
     pool = st.integers(0, 1)
     sel = st.integers(0, 5)
     who = st.sampled_from(['holder', 'o'])
+    new = st.just(True)
+    # preemption point of a collection pass: after its k-th system call
+    point = st.sampled_from([1, 1, 1, 2, 2, 2, 3, 3, 4, 4, 5, 6, 8])
+    b_up = st.one_of(
+        _fixed('own', 'up', o=slot, fresh=st.booleans(), sel=sel),
+        _fixed('own', 'up', o=slot, fresh=st.booleans()))
+    b_down = _fixed('own', 'down', o=slot, veth=st.booleans(), sel=sel)
     own = [
         (1, UP, _fixed('own', 'up', o=slot, fresh=st.booleans())),
         (1, UP, _fixed('own', 'up', o=slot, fresh=st.booleans(), sel=sel)),
@@ -149,6 +200,19 @@ def _op_strategies(nown, picked):
         (1, MISC, _fixed('vip', 'init', p=pool)),
         # os.stat fails once during the next gc/init pass of this manager
         (2, REAP, _fixed('vip', 'fsfault', errno=ERRNO, k=st.integers(1, 4))),
+        # a collection pass with another process running in the middle of it
+        (3, REAP, _race('vip', point, p=pool, burst=_burst(
+            b_up, b_down,
+            _fixed('vip', 'alloc', p=pool, o=slot, new=new, ip=st.none()),
+            st.one_of(
+                _fixed('vip', 'alloc', p=pool, o=slot, old=OLD,
+                       ip=st.none()),
+                _fixed('vip', 'alloc', p=pool, o=slot, old=OLD,
+                       ip=st.sampled_from(picked), sel=sel),
+                _fixed('vip', 'free', p=pool, o=slot, old=OLD, sel=sel,
+                       who=who),
+                _fixed('vip', 'free', p=pool, o=slot, old=OLD, sel=sel,
+                       who=who))))),
     ]
     ridx = st.integers(0, len(netfs.RULES) - 1)
     rule = [
@@ -162,6 +226,15 @@ def _op_strategies(nown, picked):
         (1, MISC, _fixed('rule', 'init')),
         (2, REAP, _fixed('rule', 'fsfault', errno=ERRNO,
                          k=st.integers(1, 4))),
+        (3, REAP, _race('rule', point, burst=_burst(
+            b_up, b_down,
+            _fixed('rule', 'create', o=slot, new=new, r=ridx),
+            st.one_of(
+                _fixed('rule', 'create', o=slot, old=OLD, r=ridx),
+                _fixed('rule', 'create', o=slot, old=OLD, r=ridx, sel=sel),
+                _fixed('rule', 'unlink', o=slot, old=OLD, sel=sel, who=who),
+                _fixed('rule', 'unlink', o=slot, old=OLD, sel=sel,
+                       who=who))))),
     ]
     sidx = st.integers(0, len(netfs.SPECS) - 1)
     form = st.sampled_from(['path', 'base'])
@@ -179,6 +252,16 @@ def _op_strategies(nown, picked):
         (4, REAP, _fixed('ep', 'gc')),
         (1, MISC, _fixed('ep', 'init')),
         (2, REAP, _fixed('ep', 'fsfault', errno=ERRNO, k=st.integers(1, 4))),
+        (3, REAP, _race('ep', point, burst=_burst(
+            b_up, b_down,
+            _fixed('ep', 'create', o=slot, new=new, s=sidx),
+            st.one_of(
+                _fixed('ep', 'create', o=slot, old=OLD, s=sidx),
+                _fixed('ep', 'create', o=slot, old=OLD, s=sidx, sel=sel),
+                _fixed('ep', 'unlink', o=slot, old=OLD, s=sidx, sel=sel,
+                       who=who, form=form),
+                _fixed('ep', 'unlink_all', o=slot, old=OLD, s=sidx, sel=sel,
+                       who=who, proto=st.none(), endpoint=st.none()))))),
     ]
     svc = [
         (6, MAKE, _fixed('svc', 'req', o=slot, sel=sel)),
@@ -271,6 +354,8 @@ def execute(case, stats):
         stats.count('cases.fault-fired')
     if flags.get('fsfault'):
         stats.count('cases.fs-fault-fired')
+    if flags.get('race'):
+        stats.count('cases.race-fired')
     return bool(flags.get('contended') and flags.get('gc_mixed'))
 
 
@@ -392,6 +477,47 @@ def fixed_cases():
         {'mgr': 'svc', 'op': 'restart'},
         {'mgr': 'svc', 'op': 'req', 'o': 2},
     ]
+    # a container starts / finishes at each of the first preemption points
+    # of a collection pass of each manager (owners 0 and 2 live with
+    # entries, owner 1 gone with entries; slot 3 is the one coming and going)
+    race = [
+        {'mgr': 'cfg', 'cidr': '10.10.0.0/28', 'cidr2': None,
+         'svc_cidr': None},
+        _up(0), _up(1), _up(2),
+    ]
+    for slot in (0, 1, 2):
+        race += [
+            {'mgr': 'vip', 'op': 'alloc', 'p': 0, 'o': slot, 'ip': None},
+            {'mgr': 'rule', 'op': 'create', 'o': slot, 'r': slot},
+            {'mgr': 'ep', 'op': 'create', 'o': slot, 's': slot},
+        ]
+    race.append({'mgr': 'own', 'op': 'down', 'o': 1, 'veth': False})
+    for k in (1, 2, 3, 4, 5):
+        starts = {
+            'vip': {'mgr': 'vip', 'op': 'alloc', 'p': 0, 'o': 3, 'new': True,
+                    'ip': None},
+            'rule': {'mgr': 'rule', 'op': 'create', 'o': 3, 'new': True,
+                     'r': 3 + k % 3},
+            'ep': {'mgr': 'ep', 'op': 'create', 'o': 3, 'new': True,
+                   's': k % 4},
+        }
+        ends = {
+            'vip': {'mgr': 'vip', 'op': 'free', 'p': 0, 'o': 3, 'sel': 5,
+                    'who': 'holder'},
+            'rule': {'mgr': 'rule', 'op': 'unlink', 'o': 3, 'r': 3 + k % 3},
+            'ep': {'mgr': 'ep', 'op': 'unlink_all', 'o': 3, 'proto': None,
+                   'endpoint': None},
+        }
+        for mgr in ('vip', 'rule', 'ep'):
+            race += [
+                {'mgr': mgr, 'op': 'gcrace', 'p': 0, 'k': k, 'do': [
+                    {'mgr': 'own', 'op': 'up', 'o': 3, 'fresh': True},
+                    starts[mgr], dict(starts[mgr])]},
+                {'mgr': mgr, 'op': 'gcrace', 'p': 0, 'k': k, 'do': [
+                    ends[mgr],
+                    {'mgr': 'own', 'op': 'down', 'o': 3, 'veth': False}]},
+                {'mgr': mgr, 'op': 'gc', 'p': 0},
+            ]
     relocated = []
     layouts = [
         {'root': 'real', 'apps': 'real', 'rules': 'link2',
@@ -431,6 +557,6 @@ def fixed_cases():
         ]
         relocated.append(('aimed-layout-%d' % pos, ops))
     return relocated + [
-        ('aimed-svc-faults', svc_fault), ('aimed-fs-faults', fsf),
+        ('aimed-gc-race', race), ('aimed-svc-faults', svc_fault), ('aimed-fs-faults', fsf),
             ('aimed-vip', vip), ('aimed-rule', rule), ('aimed-ep', ept),
             ('aimed-svc-small', svc), ('aimed-svc-16', svc_big)]
